@@ -87,6 +87,16 @@ CHECKS = {
          "on 34 vector types; the six comparisons over the C01 float lattice (NaN, +-0, +-inf) and the C13 integer lattice."),
    note="Trusted: TLC, harness mask.rs. Hash is required to be a function of the lanes, not byte-identical between BVec3 and BVec3A.",
    ref="5 (C15)"),
+ "C14": dict(
+   technique="TLA+ conversion semantics on arbitrary-precision integers and exact IEEE scalars (wrap, saturating truncation, round-to-nearest), TLC enumeration over boundary lattices, replay on all 350 as_ casts / 70 From / 156 TryFrom impls",
+   text=("MC_C14 defines `as` (int->int wrap, float->int truncate+saturate with NaN->0, int->float and f64->f32 round to nearest even), "
+         "From (must be lossless: range inclusion is a TLC-checked theorem) and TryFrom (Ok iff every lane fits) and enumerates every "
+         "ordered scalar pair over lattices made of each type's extremes and every narrower target's boundaries +-1; TLC also checks "
+         "int->float->int round trips and identity on fitting values. The harness discovers every as_*/From/TryFrom impl between the 34 "
+         "vector types from the sources and replays each case in four lane rotations (TryFrom additionally with each value alone in each "
+         "lane), and lane-moving conversions (extend/truncate, tuple pairs, Vec3<->Vec3A, Quat<->Vec4, masks) on tokens bit-for-bit."),
+   note="Trusted: TLC, Big/Ieee modules (cross-checked against the Rust `as` cast on every lane: disagreement = tool error), gen_conv.py source scan. Not decided: all 2^32 f32 patterns.",
+   ref="5 (C14)"),
 }
 
 PENDING = {}
